@@ -255,6 +255,13 @@ def h_str_eq(ex, name, args, path, depth, caller):
         else:
             yield Outcome("return", path, a.term() == b.term())
         return
+    if (isinstance(a, TextV) and isinstance(b, StrV) and not b.is_concrete()) or (isinstance(b, TextV) and isinstance(a, StrV) and not a.is_concrete()):
+        # a structured text against an unknown earlier text: either answer is possible
+        key = "same_text_%d" % len([k for k in ex.inputs if k.startswith("same_text_")])
+        t = z3.Bool(key)
+        ex.inputs[key] = t
+        yield Outcome("return", path, t)
+        return
     raise Unsupported("str eq on %r, %r" % (a, b))
 
 
@@ -1159,6 +1166,8 @@ def cur(path, ref):
     if isinstance(ref, RefV):
         if ref.loc is not None and ref.loc in path.stores:
             return path.stores[ref.loc]
+        if ref.frame is not None and ref.slot and ("~frame%d" % ref.frame, ref.slot) in path.stores:
+            return path.stores[("~frame%d" % ref.frame, ref.slot)]     # a local of a frame further up, written on this path
         return cur(path, ref.v) if isinstance(ref.v, RefV) else ref.v
     return ref
 
@@ -1195,6 +1204,16 @@ def vec_of(path, ref):
 
 
 def h_vec_len(ex, name, args, path, depth, caller):
+    v0 = cur(path, args[0])
+    if isinstance(v0, SymV):
+        # a vector nobody has written yet (a field of a symbolic object): its length is an unknown non-negative integer
+        key = "len(%s)" % v0.path
+        n = z3.Int(key)
+        if key not in ex.inputs:
+            ex.inputs[key] = n
+            ex.domain.append(n >= 0)
+        yield Outcome("return", path, (n == 0) if name.endswith("is_empty") else IntV(n, 64, False))
+        return
     v = vec_of(path, args[0])
     if name.endswith("is_empty"):
         yield Outcome("return", path, z3.BoolVal(len(v.items) == 0))
@@ -1341,6 +1360,7 @@ def install_heap(ex):
     add(r"^Cell::<.*>::set$", h_cell_set2)
     add(r"^Cell::<.*>::get$", h_cell_get2)
     add(r"^Vec::<.*>::(len|is_empty)$|^core::slice::<impl \[.*\]>::(len|is_empty)$", h_vec_len)
+    add(r"^core::option::Option::<.*>::or_else::<.*>$", lambda *a: h_option_or_else(*a))
     add(r"^(core::ops::)?RangeInclusive::<.*>::new$", lambda *a: h_range_inclusive_new(*a))
     add(r"^BTreeMap::<usize, .*>::range::<.*>$", lambda *a: h_mapc_range(*a))
     add(r"^core::slice::<impl \[(usize|u8|u16|u32|u64|i32|i64|isize)\]>::contains$", lambda *a: h_slice_contains_int(*a))
@@ -1816,10 +1836,23 @@ def h_range_iter_next(ex, name, args, path, depth, caller):
     r = deref(args[0])
     if not (isinstance(r, StructV) and r.name == "Range"):
         return NotImplemented
-    a, b = conc_int(r.f[0]), conc_int(r.f[1])
+    a = conc_int(r.f[0])
+    bits, signed = (r.f[0].bits, r.f[0].signed) if isinstance(r.f[0], IntV) else (64, False)
+    bt = z3.simplify(r.f[1].t) if isinstance(r.f[1], IntV) and z3.is_expr(r.f[1].t) else None
+    if bt is not None and not z3.is_int_value(bt):
+        # symbolic upper bound (for _ in 0..digits): both continuations, each only when satisfiable
+        def gen():
+            more = path.add(bt > a)
+            if ex.feasible(more):
+                yield from ex.ret_w(more, some(IntV(a, bits, signed)), {0: StructV("Range", [IntV(a + 1, bits, signed), r.f[1]], r.path)})
+            done = path.add(bt <= a)
+            if ex.feasible(done):
+                yield from ex.ret_w(done, NONE, {0: r})
+        return gen()
+    b = conc_int(r.f[1])
     if a >= b:
         return ex.ret_w(path, NONE, {0: r})
-    return ex.ret_w(path, some(IntV(a, 64, False)), {0: StructV("Range", [IntV(a + 1, 64, False), r.f[1]], r.path)})
+    return ex.ret_w(path, some(IntV(a, bits, signed)), {0: StructV("Range", [IntV(a + 1, bits, signed), r.f[1]], r.path)})
 
 
 def h_slice_first_last(ex, name, args, path, depth, caller):
@@ -1856,7 +1889,10 @@ def install_rules(ex):
 
     add(r"^<dyn RuleTrait as RuleTrait>::name$", h_rule_name)
     add(r"^<dyn RuleTrait as RuleTrait>::call$", h_rule_call)
-    add(r"^<core::ops::Range<usize> as Iterator>::next$", h_range_iter_next)
+    add(r"^<core::ops::Range<(usize|u8|u16|u32|u64|i32|i64)> as Iterator>::next$", h_range_iter_next)
+    add(r"^<core::ops::Range<(u8|u16|u32|u64|i32|i64)> as IntoIterator>::into_iter$", h_identity_keep)
+    add(r"^<core::slice::Iter<.*> as Iterator>::position::<.*>$", lambda *a: h_iter_position(*a))
+    add(r"^<core::ops::Range(Inclusive)?<.*> as Iterator>::fold::<.*>$", lambda *a: h_range_fold(*a))
     add(r"^<core::ops::Range<usize> as IntoIterator>::into_iter$", h_identity_keep)
     add(r"^core::option::Option::<.*>::as_ref$", h_option_as_ref)
     add(r"^core::slice::<impl \[.*\]>::(first|last)$", h_slice_first_last)
@@ -2701,6 +2737,7 @@ def install_number_tokeniser(ex):
     add(r"^<Chars<'_> as Iterator>::filter::<.*>$", h_iter_filter)
     add(r"^<Filter<Chars<'_>, .*> as Iterator>::map::<.*>$|^<Chars<'_> as Iterator>::map::<.*>$", h_iter_map)
     add(r"^<(core::iter::)?Map<.*Chars<'_>.*> as Iterator>::collect::<(alloc::string::)?String>$|^<Filter<Chars<'_>, .*> as Iterator>::collect::<(alloc::string::)?String>$|^<Chars<'_> as Iterator>::collect::<(alloc::string::)?String>$", h_collect_string_chars)
+    install_written_predicates(ex)
 
 
 
@@ -2759,3 +2796,282 @@ def h_mapc_range(ex, name, args, path, depth, caller):
             return
     keys = [k for k in sorted(m.d) if isinstance(k, int) and lo <= k and (k <= hi if r.name == "RangeInclusive" else k < hi)]
     yield Outcome("return", path, IterV([TupleV([RefV(IntV(k, 64, False)), RefV(m.d[k])]) for k in keys], 0, False, True))
+
+
+
+# ------------------------------------------------------------------ "{:.Pe}" and back: rounding to P+1 significant digits
+SCI_EXP_RANGE = (-25, 25)      # decimal exponents modelled; beyond them the text round trip is taken as the identity (outside the claim)
+
+
+class SciTextV(StrV):
+    """the text of format!("{:.Pe}", v): only its numeric value is modelled"""
+
+    def __init__(self, value, digits):
+        SciTextV.n = getattr(SciTextV, "n", 0) + 1
+        StrV.__init__(self, z3.String("scitext%d" % SciTextV.n))
+        self.value, self.digits = value, digits
+
+
+def round_sig(v, digits):
+    """v rounded (half to even) to `digits` significant decimal digits, for 10^lo <= |v| < 10^(hi+1); v itself elsewhere"""
+    a = z3.If(v >= 0, v, -v)
+    out = v
+    for e in range(SCI_EXP_RANGE[1], SCI_EXP_RANGE[0] - 1, -1):
+        k = e - digits + 1
+        scale = z3.Q(10 ** k, 1) if k >= 0 else z3.Q(1, 10 ** (-k))
+        r = z3.ToReal(round_half_even(a / scale)) * scale
+        lo = z3.Q(10 ** e, 1) if e >= 0 else z3.Q(1, 10 ** (-e))
+        hi = z3.Q(10 ** (e + 1), 1) if e + 1 >= 0 else z3.Q(1, 10 ** (-(e + 1)))
+        out = z3.If(z3.And(a >= lo, a < hi), z3.If(v >= 0, r, -r), out)
+    return out
+
+
+def decode_placeholders(t):
+    """placeholders of a format_args! template as (flags, width, precision) with None for absent (library/core/src/fmt/mod.rs)"""
+    if not isinstance(t, BytesV):
+        return None
+    b, i, out = t.b, 0, []
+    while i < len(b):
+        c = b[i]
+        if c == 0:
+            return out
+        if c < 0x80:
+            i += 1 + c
+        elif c == 0x80:
+            i += 3 + (b[i + 1] | (b[i + 2] << 8))
+        elif c >= 0xC0:
+            i += 1
+            flags = width = prec = None
+            if c & 1:
+                flags = int.from_bytes(b[i:i + 4], "little")
+                i += 4
+            if c & 2:
+                width = int.from_bytes(b[i:i + 2], "little")
+                i += 2
+            if c & 4:
+                prec = int.from_bytes(b[i:i + 2], "little")
+                i += 2
+            if c & 8:
+                i += 2
+            if c & 0x30:
+                return None          # width / precision taken from an argument
+            out.append((flags, width, prec))
+        else:
+            return None
+    return out
+
+
+def h_sci_arg(ex, name, args, path, depth, caller):
+    yield Outcome("return", path, FmtArgV("sci", deref(args[0])))
+
+
+def h_sci_arguments(ex, name, args, path, depth, caller):
+    arr = deref(args[1]) if len(args) > 1 else None
+    raw = arr.items if isinstance(arr, VecV) else getattr(arr, "f", None)
+    if not raw:
+        return NotImplemented
+    items = [deref(x) for x in raw]
+    if not (len(items) == 1 and isinstance(items[0], FmtArgV) and items[0].kind == "sci"):
+        return NotImplemented
+    return iter([Outcome("return", path, FmtArgsV(deref(args[0]), items))])
+
+
+def h_sci_format(ex, name, args, path, depth, caller):
+    a = deref(args[0])
+    if not (isinstance(a, FmtArgsV) and len(a.args) == 1 and isinstance(a.args[0], FmtArgV) and a.args[0].kind == "sci"):
+        return NotImplemented
+    ph = decode_placeholders(a.template)
+    v = a.args[0].v
+    if not (ph and len(ph) == 1 and ph[0][2] is not None and ph[0][1] is None and isinstance(v, FloatV)):
+        raise Unsupported("scientific format with template %r" % (a.template,))
+    return iter([Outcome("return", path, SciTextV(round_sig(v.t, ph[0][2] + 1), ph[0][2] + 1))])
+
+
+def h_sci_parse(ex, name, args, path, depth, caller):
+    v = deref(args[0])
+    if not isinstance(v, SciTextV):
+        return NotImplemented
+    return iter([Outcome("return", path, EnumV("Result", "Ok", [FloatV(v.value, z3.BoolVal(False))]))])
+
+
+def install_sci(ex):
+    """lowest priority: only reached when nothing else claims these calls"""
+    ex.handlers.append((re.compile(r"^core::fmt::rt::Argument::<'_>::new_(lower|upper)_exp::<f64>$"), h_sci_arg))
+    ex.handlers.insert(0, (re.compile(r"^Arguments::<'_>::new::<\d+, 1>$"), h_sci_arguments))
+    ex.handlers.insert(0, (re.compile(r"^alloc::fmt::format$"), h_sci_format))
+    ex.handlers.insert(0, (re.compile(r"^core::str::<impl str>::parse::<f64>$"), h_sci_parse))
+    ex.handlers.append((re.compile(r"^must_use::<.*>$"), h_identity0))
+
+
+
+# ------------------------------------------------------------------ Iterator::position / Range::fold / Range<uN> loops
+def h_iter_position(ex, name, args, path, depth, caller):
+    """Iterator::position over a slice iterator: Some(i) for the first element the closure accepts"""
+    it = deref(args[0])
+    if not isinstance(it, IterV):
+        return NotImplemented
+    f = closure_fn(ex, name)
+
+    def gen():
+        states = [path]
+        for i, el in enumerate(it.items[it.idx:]):
+            nxt = []
+            for p in states:
+                for o in ex.run(f, [args[1], el if it.owned else RefV(el)], p, depth + 1):
+                    if o.kind == "panic":
+                        yield o
+                        continue
+                    c = o.value if z3.is_expr(o.value) else z3.BoolVal(bool(o.value))
+                    pt = o.path.add(c)
+                    if z3.is_true(z3.simplify(c)) or ex.feasible(pt):
+                        yield Outcome("return", pt, some(IntV(i, 64, False)))
+                    pf = o.path.add(z3.Not(c))
+                    if not z3.is_true(z3.simplify(c)) and ex.feasible(pf):
+                        nxt.append(pf)
+            states = nxt
+        for p in states:
+            yield Outcome("return", p, NONE)
+    return gen()
+
+
+def h_range_fold(ex, name, args, path, depth, caller):
+    """Range / RangeInclusive ::fold with concrete bounds: the closure applied in order"""
+    r = deref(args[0])
+    if not (isinstance(r, StructV) and r.name in ("Range", "RangeInclusive")):
+        return NotImplemented
+    lo, hi = conc_int(deref(r.f[0])), conc_int(deref(r.f[1]))
+    bits, signed = (deref(r.f[0]).bits, deref(r.f[0]).signed) if isinstance(deref(r.f[0]), IntV) else (64, False)
+    idx = list(range(lo, hi + 1 if r.name == "RangeInclusive" else hi))
+    f = closure_fn(ex, name)
+
+    def gen():
+        states = [(path, args[1])]
+        for i in idx:
+            nxt = []
+            for p, acc in states:
+                for o in ex.run(f, [RefV(args[2]), acc, IntV(i, bits, signed)], p, depth + 1):
+                    if o.kind == "panic":
+                        yield o
+                    else:
+                        nxt.append((o.path, o.value))
+            states = nxt
+        for p, acc in states:
+            yield Outcome("return", p, acc)
+    return gen()
+
+
+
+def h_option_or_else(ex, name, args, path, depth, caller):
+    """Option::or_else: the option itself when Some, the closure's result otherwise"""
+    f = closure_fn(ex, name)
+    for p, is_some, payload in option_cases(ex, path, args[0]):
+        if is_some:
+            yield Outcome("return", p, some(payload))
+        else:
+            yield from ex.run(f, [args[1]], p, depth + 1)
+
+
+
+# ------------------------------------------------------------------ written literals under char-predicate closures (|ch| ch == '.' || ...)
+def char_pred(ex, f, clos, ch, path, depth):
+    """the closure's verdict on one character of a written literal; must be the same for every value of a symbolic digit"""
+    res = None
+    for o in ex.run(f, [clos, char_value(ch)], path, depth + 1):
+        if o.kind == "panic":
+            raise Unsupported("a character predicate that can panic")
+        v = o.value if z3.is_expr(o.value) else z3.BoolVal(bool(o.value))
+        can_t, can_f = ex.feasible(o.path.add(v)), ex.feasible(o.path.add(z3.Not(v)))
+        if can_t and can_f:
+            raise Unsupported("a character predicate that depends on the value of a digit")
+        r = bool(can_t)
+        if res is not None and res != r:
+            raise Unsupported("a character predicate with diverging paths")
+        res = r
+    if res is None:
+        raise Unsupported("a character predicate without a result")
+    return res
+
+
+def h_written_trim_end(ex, name, args, path, depth, caller):
+    v = cur(path, args[0])
+    if not isinstance(v, DecStrV):
+        return NotImplemented
+    f = closure_fn(ex, name)
+    chars = list(v.chars)
+    while chars and char_pred(ex, f, RefV(args[1]), chars[-1], path, depth):
+        chars.pop()
+    return iter([Outcome("return", path, DecStrV(chars))])
+
+
+def h_written_rfind(ex, name, args, path, depth, caller):
+    v = cur(path, args[0])
+    if not isinstance(v, DecStrV):
+        return NotImplemented
+    f = closure_fn(ex, name)
+    idx = range(len(v.chars) - 1, -1, -1) if "rfind" in name else range(len(v.chars))
+    for i in idx:
+        if char_pred(ex, f, RefV(args[1]), v.chars[i], path, depth):
+            return iter([Outcome("return", path, some(IntV(i, 64, False)))])
+    return iter([Outcome("return", path, NONE)])
+
+
+def h_written_replace_pred(ex, name, args, path, depth, caller):
+    v, to = cur(path, args[0]), deref(args[2])
+    if not isinstance(v, DecStrV) or not (isinstance(to, StrV) and to.is_concrete()):
+        return NotImplemented
+    f = closure_fn(ex, name)
+    out = []
+    for ch in v.chars:
+        if char_pred(ex, f, RefV(args[1]), ch, path, depth):
+            out += [("c", c) for c in to.t]
+        else:
+            out.append(ch)
+    return iter([Outcome("return", path, DecStrV(out))])
+
+
+def h_written_slice(ex, name, args, path, depth, caller):
+    v, r = cur(path, args[0]), deref(args[1])
+    if not isinstance(v, DecStrV) or not isinstance(r, StructV):
+        return NotImplemented
+    n = len(v.chars)
+    if r.name == "RangeTo":
+        a, b = 0, conc_int(deref(r.f[0]))
+    elif r.name == "RangeFrom":
+        a, b = conc_int(deref(r.f[0])), n
+    elif r.name == "Range":
+        a, b = conc_int(deref(r.f[0])), conc_int(deref(r.f[1]))
+    elif r.name == "RangeFull":
+        a, b = 0, n
+    else:
+        return NotImplemented
+    if a > b or b > n:
+        return iter([panic(path, "byte index out of range of a written literal", caller.name)])
+    return iter([Outcome("return", path, DecStrV(v.chars[a:b]))])
+
+
+def h_written_format(ex, name, args, path, depth, caller):
+    """format! whose arguments are written literals shown with {}: the pieces concatenated"""
+    a = deref(args[0])
+    if not isinstance(a, FmtArgsV) or not a.args or not all(isinstance(x, FmtArgV) and x.kind == "display" and isinstance(x.v, DecStrV) for x in a.args):
+        return NotImplemented
+    pieces = decode_template(a.template)
+    if pieces is None or sum(1 for q in pieces if q is None) != len(a.args):
+        return NotImplemented
+    out, it = [], iter(a.args)
+    for q in pieces:
+        out += [("c", c) for c in q] if q is not None else list(next(it).v.chars)
+    return iter([Outcome("return", path, DecStrV(out))])
+
+
+def install_written_predicates(ex):
+    def add(rx, fn):
+        ex.handlers.insert(0, (re.compile(rx), fn))
+    add(r"^core::str::<impl str>::trim_end_matches::<\{closure@.*\}>$", h_written_trim_end)
+    add(r"^core::str::<impl str>::r?find::<\{closure@.*\}>$", h_written_rfind)
+    add(r"^(alloc|core)::str::<impl str>::replace::<\{closure@.*\}>$", h_written_replace_pred)
+    add(r"^core::str::traits::<impl (core::ops::)?Index<.*> for str>::index$|^<str as (core::ops::)?Index<.*>>::index$|^<(alloc::string::)?String as (core::ops::)?Index<(core::ops::)?Range(To|From)?<usize>>>::index$", h_written_slice)
+    add(r"^core::fmt::rt::Argument::<'_>::new_display::<.*>$", h_fmt_arg)
+    add(r"^Arguments::<'_>::new::<.*>$", h_fmt_arguments_new)
+    add(r"^alloc::fmt::format$", h_written_format)
+    add(r"^must_use::<.*>$", h_identity0)
+    add(r"^(alloc::string::)?String::len$|^core::str::<impl str>::len$", h_decstr_len)
